@@ -3,6 +3,7 @@
 import glob, json, os
 V = os.path.dirname(os.path.dirname(os.path.abspath(__file__)))
 rows = []
+supers = []
 for f in sorted(glob.glob(os.path.join(V, "seeded", "*", "meta.json"))):
     m = json.load(open(f))
     sid = os.path.basename(os.path.dirname(f))
@@ -15,6 +16,9 @@ for f in sorted(glob.glob(os.path.join(V, "seeded", "*", "meta.json"))):
     for p in ([own] if own in now else sorted(now)):
         for k in now[p][:2]:
             keys.append("%s `%s`" % (p, k))
+    if m.get("superseded"):
+        supers.append((sid, m["superseded"]))
+        continue
     rows.append((sid, (a.get("summary") or "").replace("\n", " ").replace("|", "/")[:230], (a.get("needs_to_manifest") or "").replace("\n", " ").replace("|", "/")[:200],
                  "fails/passes=%s/%s, suite %s" % (c.get("demo_exit_with_change"), c.get("demo_exit_without_change"), c.get("existing_tests_with_change(passed failed)")),
                  ("own check" if own in first else ("only " + ",".join(sorted(first)) if first else "**missed**")),
@@ -44,5 +48,9 @@ for k in (1, 2, 3):
     other = sum(1 for r in rr if r[4].startswith("only"))
     now_own = sum(1 for r in rr if not r[5].endswith("(NOT by own check)") and r[5])
     out.append("Round %d: %d changes; first round: %d reported by the property's own check, %d only by a neighbouring property's check, %d missed; now: %d reported by the property's own check." % (k, len(rr), firsts, other, len(rr) - firsts - other, now_own))
+if supers:
+    out += ["", "Superseded (behaviour-preserving on the repaired tree, not counted above):", ""]
+    for sid, why in supers:
+        out.append("* `%s` - %s" % (sid, why))
 open(os.path.join(V, "seeded", "README.md"), "w").write("\n".join(out) + "\n")
 print("\n".join(out[-4:]))
